@@ -154,7 +154,8 @@ func buildEventQuery(
 					tagHashes[i] = b[:]
 				}
 
-				etag := t.As("etag" + key)
+				// SQLite identifiers are case-insensitive: #e and #E need distinct aliases.
+				etag := t.As(fmt.Sprintf("etag%x", key))
 
 				sub = sub.
 					Join(etag, goqu.On(
